@@ -111,6 +111,14 @@ bool is_private_or_reserved_ipv6(const std::string& host) {
     if (normalized.rfind("ff", 0) == 0) {
         return true;  // Multicast
     }
+    constexpr std::string_view kMappedPrefix{"::ffff:"};
+    if (normalized.rfind(kMappedPrefix, 0) == 0) {
+        // IPv4-mapped address: it reaches the host that the embedded IPv4 address names.
+        std::array<std::uint8_t, 4> mapped{};
+        if (parse_ipv4(normalized.substr(kMappedPrefix.size()), mapped)) {
+            return is_private_or_reserved_ipv4(mapped);
+        }
+    }
     return false;
 }
 
